@@ -17,7 +17,7 @@ import (
 
 // C13 — ToCSV followed by ReadCSV reproduces the frame.
 
-var evC13 = ev.New("C13", "derived frames with >=1 column: strings of any bytes but CR (non-UTF-8, quotes, delimiters, LF, leading/trailing blanks), floats over raw bit patterns incl. +-Inf, NaN, -0.0, subnormals, "+
+var evC13 = ev.New("C13", "derived frames with >=1 column: strings of any bytes but CR (non-UTF-8, quotes, delimiters, LF, leading/trailing blanks), floats over raw and structured bit patterns (powers of two/ten +-1 ulp, short decimal literals, whole numbers beyond 2^63) incl. +-Inf, NaN, -0.0, subnormals, "+
 	"ints incl. extremes, declared and derived enums, hostile legal column names; options Header(bool), Columns(order); read back with the frame's types (and enum values; Headers when no header row) and both EmptyNull settings; "+
 	"oracle: round trip - same columns in written order, same rows in order, ints/bools/strings/enums identical, non-NaN floats bit-identical, NaN stays NaN, null<->\"\" as stated; "+
 	"non-trivial = >=2 rows, non-identity index, and a cell that forces quoting or a float with >=16 significant digits; distinct = FNV-64 of (table, route, options)")
